@@ -236,7 +236,7 @@ theorem C09_serialize_rt_public (S : Setting g) (h4 : g.c.p % 4 = 3) (hbc : byte
   have hx256 : n.publicPair.1 < 2 ^ 256 := by
     have : (g.c.p : Int) ≤ 2 ^ 256 := by exact_mod_cast S.hp256
     omega
-  obtain ⟨blob, h1, h2, h3, h5⟩ := serialize_rt_public h4 hbc n hv hd hi hx0 hx256 hy0 hy1 ver hver
+  obtain ⟨blob, h1, h2, h3, h5⟩ := serialize_rt_public h4 hbc n hv hd hi hx0 hx256 hx1 hy0 hy1 ver hver
   refine ⟨blob, h1, h2, ?_, h5⟩
   have hon : containsXY g.c n.publicPair.1 n.publicPair.2 = true := by
     have hv' := hv
@@ -297,7 +297,7 @@ theorem C09_hwif_rt (S : Setting g) (hodd : g.c.n % 2 = 1) (h4 : g.c.p % 4 = 3) 
     have : (g.c.p : Int) ≤ 2 ^ 256 := by exact_mod_cast S.hp256
     omega
   exact ⟨hwif_rt_private net hnet n s hv hse hd hi S.hn256 hok ha,
-    hwif_rt_public h4 hbc net hnet n hv hd hi x0 hx256 y0 y1 hok ha⟩
+    hwif_rt_public h4 hbc net hnet n hv hd hi x0 hx256 x1 y0 y1 hok ha⟩
 
 /-- **hwif_rt for a public-only node** with coordinates as in `C09_public_pair_coords` -/
 theorem C09_hwif_rt_public_node (S : Setting g) (h4 : g.c.p % 4 = 3) (hbc : byteCount g.c.p = 32)
@@ -312,7 +312,7 @@ theorem C09_hwif_rt_public_node (S : Setting g) (h4 : g.c.p % 4 = 3) (hbc : byte
   have hx256 : n.publicPair.1 < 2 ^ 256 := by
     have : (g.c.p : Int) ≤ 2 ^ 256 := by exact_mod_cast S.hp256
     omega
-  obtain ⟨text, t1, t2⟩ := hwif_rt_public h4 hbc net hnet n hv hd hi hx0 hx256 hy0 hy1 hok ha
+  obtain ⟨text, t1, t2⟩ := hwif_rt_public h4 hbc net hnet n hv hd hi hx0 hx256 hx1 hy0 hy1 hok ha
   refine ⟨text, t1, ?_⟩
   rw [t2]
   cases n
